@@ -10,6 +10,9 @@
   `check_width` shows it is always enough).
 -/
 import PyGqlModel.Lemmas.ParseValue
+import PyGqlModel.Lemmas.ParseDocL
+import PyGqlModel.Lemmas.ParseTSE
+import PyGqlModel.Lemmas.ParseTSC
 namespace PyGql.Props.C01
 open PyGql PyGql.Ast PyGql.Parse PyGql.Spec
 
@@ -145,22 +148,72 @@ def ParseCompleteDocument : Prop :=
   ∀ (fl : Flags) (toks : List Tok) (d : Document), wfDocument fl d = true → Matches fl [documentV d] toks →
     parseDocument fl toks = .ok d
 
-/-- `parse_sound` restricted to the two sub-grammars proved in full (values and types, every flag combination).
-    MISSING for `ParseSoundDocument`: the same inversion argument for selections / operations / fragments /
-    type-system definitions (the lemmas `anyLoop_sound`, `check_*`, `*_ok` are the ones needed; `manyLoop`,
-    `delimLoop`, `directivesLoop` need their analogues).  Meanwhile the document statement is EVALUATED by the
-    compiled model on its own output for every accepted document of the correspondence (`spec` flag of the
-    driver op `parse`, corr/C02_spans.py) — a test, not a proof. -/
+/-- `parse_sound` for values and types (kept from phase 1).  SUPERSEDED for documents by `parse_sound_document`
+    (below), which proves `ParseSoundDocument` in full; nothing is missing on the soundness side any more. -/
 theorem parse_sound_partial (fl : Flags) (toks : List Tok) :
     (∀ v, parseValue fl toks = .ok v → wfValue false v = true ∧ Matches fl [p .sof, valueV v, p .eof] toks) ∧
     (∀ t, parseType fl toks = .ok t → wfType t = true ∧ Matches fl [p .sof, typeV t, p .eof] toks) :=
   ⟨parseValue_sound fl toks, parseType_sound fl toks⟩
 
-/-- `parse_complete` restricted to values and types (every flag combination); MISSING: documents, as above. -/
+/-- `parse_complete` for values and types (every flag combination).  For documents: proved in full for the executable
+    language (`parse_complete_executable`, `allow_type_system=False`) and reduced to the type-system layer in
+    general (`parseDocument_complete_of`: given `TSComplete`, i.e. exact completeness of `parse_type_system_definition`
+    / `parse_type_system_extension` under the follow condition `FollowDef`).  MISSING for `ParseCompleteDocument`:
+    `TSComplete` itself (the completeness direction of the 8 type-system definitions and 7 extensions; their
+    soundness direction is proved: `tsSound`). -/
 theorem parse_complete_partial (fl : Flags) (toks : List Tok) :
     (∀ v, wfValue false v = true → Matches fl [p .sof, valueV v, p .eof] toks → parseValue fl toks = .ok v) ∧
     (∀ t, wfType t = true → Matches fl [p .sof, typeV t, p .eof] toks → parseType fl toks = .ok t) :=
   ⟨parseValue_complete fl toks, parseType_complete fl toks⟩
+
+/-! ## documents: reduction to the type-system layer, and the executable language in full -/
+
+/-- soundness of `parse`, given soundness of the two type-system dispatchers when they are reachable -/
+theorem parseDocument_sound_of (fl : Flags) (hTS : ∀ fuel, fl.allowTypeSystem = true → TSSound fl fuel)
+    (toks : List Tok) (d : Document) (h : parseDocument fl toks = .ok d) :
+    wfDocument fl d = true ∧ Matches fl [documentV d] toks := by
+  obtain ⟨l', h⟩ := (runAll_ok _ _ _).1 h
+  obtain ⟨w, c⟩ := parseDocumentP_sound fl _ (hTS _) _ _ _ h
+  refine ⟨w, (matches_iff _ _ _).2 ⟨l', ?_⟩⟩
+  simp only at c
+  simp [Item.checkAll, c]
+
+/-- exact completeness of `parse`, given completeness of the two type-system dispatchers when reachable -/
+theorem parseDocument_complete_of (fl : Flags) (hTS : ∀ fuel, fl.allowTypeSystem = true → TSComplete fl fuel)
+    (toks : List Tok) (d : Document) (w : wfDocument fl d = true) (h : Matches fl [documentV d] toks) :
+    parseDocument fl toks = .ok d := by
+  obtain ⟨l', h⟩ := (matches_iff _ _ _).1 h
+  simp only [checkAll_cons, checkAll_nil] at h
+  obtain ⟨l1, ts1, hd, hfin⟩ := h
+  cases hfin
+  apply (runAll_ok _ _ _).2
+  exact ⟨l', parseDocumentP_complete fl _ (hTS _) d default l' toks [] w (by omega) hd⟩
+
+/-- `parse_sound` for the EXECUTABLE language (`allow_type_system=False`; every `no_location` /
+    `experimental_fragment_variables` combination): operations in shorthand and long form, variable definitions
+    with default values and constant directives, fields with aliases / arguments / directives / nested selection
+    sets, fragment spreads, inline fragments, fragment definitions with or without fragment variables. -/
+theorem parse_sound_executable (fl : Flags) (hx : fl.allowTypeSystem = false) (toks : List Tok) (d : Document)
+    (h : parseDocument fl toks = .ok d) : wfDocument fl d = true ∧ Matches fl [documentV d] toks :=
+  parseDocument_sound_of fl (fun _ ht => by simp [hx] at ht) toks d h
+
+/-- `parse_complete` (exact) for the executable language. -/
+theorem parse_complete_executable (fl : Flags) (hx : fl.allowTypeSystem = false) (toks : List Tok) (d : Document)
+    (w : wfDocument fl d = true) (h : Matches fl [documentV d] toks) : parseDocument fl toks = .ok d :=
+  parseDocument_complete_of fl (fun _ ht => by simp [hx] at ht) toks d w h
+
+/-- the token language of `parse(…, allow_type_system=False)` is exactly the set of lists matched by a well-formed
+    (executable) document -/
+theorem parseDocument_accepts_iff_executable (fl : Flags) (hx : fl.allowTypeSystem = false) (toks : List Tok) :
+    (∃ d, parseDocument fl toks = .ok d) ↔ ∃ d, wfDocument fl d = true ∧ Matches fl [documentV d] toks :=
+  ⟨fun ⟨d, h⟩ => ⟨d, parse_sound_executable fl hx toks d h⟩,
+   fun ⟨d, w, h⟩ => ⟨d, parse_complete_executable fl hx toks d w h⟩⟩
+
+/-- `parse_sound` IN FULL: documents (executable and type-system definitions and extensions), all 8 flag combinations.
+    An accepted token list is well-formed for the flags and is matched, spans included, by the view of the
+    returned document. -/
+theorem parse_sound_document : ParseSoundDocument :=
+  fun fl toks d h => parseDocument_sound_of fl (fun fuel _ => tsSound fl fuel) toks d h
 
 /-! ## the tables re-extracted from `parser.py` are the grammar's
 
